@@ -72,6 +72,7 @@ func cases(tier string, seed int64) []eng.Case {
 		out = append(out, eng.Case{ID: fmt.Sprintf("keys/%d/%s", i, cf.Name), Sig: "C18|keys", Desc: cf,
 			Run: func(c *eng.Ctx) { runKeys(c, cf) }})
 	}
+	out = append(out, helperCases()...)
 	out = append(out, dftCases(tier, r)...)
 	out = append(out, mod1Cases(tier, r)...)
 	out = append(out, structCases()...)
